@@ -526,6 +526,10 @@ pub fn on_pause_end() {
         enumerated = check_exact(sh, &pre, &live, &dead_now);
     }
 
+    // ---- 4b. conservative lookups (C08) -------------------------------------------------------
+    #[cfg(feature = "f_vo")]
+    crate::c08::at_pause_end(sh, &live, pre.valid && pre.exact);
+
     // ---- 5. SATB (C12) -------------------------------------------------------------------------
     check_satb(sh, &info, &live);
 
